@@ -249,6 +249,11 @@ func (f *frame) checkPre(callee *ssa.Function, ct *Contract, args []Term, pos to
 		if f.inlined != "" {
 			detail = "[" + f.inlined + "] " + detail
 		}
+		if cl.Inv && f.fn.Pkg != callee.Pkg {
+			vc.assume(goal)
+			vc.P.noteAssumedInv(normName(callee.String()) + "." + cl.Name)
+			continue
+		}
 		vc.oblige("pre", f.label, detail, f.pos(pos), goal, cl.Name, f.inlined)
 	}
 }
@@ -360,6 +365,7 @@ func (f *frame) contractCall(callee *ssa.Function, ct *Contract, c *ssa.CallComm
 		f.st.set("G$called$"+cw, vc.define("G$called", mkOr(f.st.get("G$called$"+cw, SBool), dc)))
 		f.st.set("G$ncalls$"+cw, vc.define("G$ncalls", bvAdd(f.st.get("G$ncalls$"+cw, SBV64), dn)))
 		f.st.set("G$tainted$"+cw, vc.define("G$tainted", mkAnd(f.st.get("G$tainted$"+cw, SBool), mkNot(dc))))
+		f.taintAlways(cw, dc)
 		for name, dv := range delta.writes {
 			if strings.HasPrefix(name, "G$ret$"+cw+"$") || strings.HasPrefix(name, "G$arg$"+cw+"$") {
 				f.st.set(name, vc.define("G$ev", mkIte(dc, dv, f.st.get(name, dv.Sort))))
